@@ -26,7 +26,7 @@ COMPONENTS = {"real": ["bioscrape.lineage LineageModel / LineageCSimInterface / 
                        "LineageVolumeSplitter", "bioscrape.simulator PerfectBinomialVolumeSplitter / GeneralVolumeSplitter",
                        "bioscrape.types Schnitz / Lineage", "bioscrape.random (scripted in skew_split runs)"], "stub": []}
 TIERS = {
-    "quick": {"cases": 4000, "block": 100, "case_timeout": 60.0},
+    "quick": {"cases": 3000, "block": 100, "case_timeout": 60.0},
     "thorough": {"cases": 200000, "block": 250, "case_timeout": 90.0},
 }
 
